@@ -1033,6 +1033,11 @@ func c17CheckVersionTable(ctx *vfCtx, c c17VTCase) {
 		cell("power-level-integers", fmt.Sprint(perr, pl2.Ban, pl2.Users["@u:h.test"]), "<nil> 50 100")
 		var pl3 PowerLevelContent
 		cell("integer-power-levels", impl.ParsePowerLevels([]byte(`{"users":{"@u:h.test":"100"}}`), &pl3) != nil, tr.IntegerPL)
+		// integer levels are reported as written, also where no float64 holds them exactly (such
+		// integers are legal wherever canonical JSON is not enforced; the parsers do not look at the range)
+		var pl4 PowerLevelContent
+		perr = impl.ParsePowerLevels([]byte(`{"ban":9007199254740993,"kick":-9007199254740993,"users":{"@u:h.test":9223372036854775807},"events":{"m.x":4611686018427387905}}`), &pl4)
+		cell("power-level-large-integers", fmt.Sprint(perr, pl4.Ban, pl4.Kick, pl4.Users["@u:h.test"], pl4.Events["m.x"]), "<nil> 9007199254740993 -9007199254740993 9223372036854775807 4611686018427387905")
 	})
 	// ---- knocking ----
 	probe(func() {
